@@ -2,6 +2,7 @@
 
 from __future__ import annotations
 
+import os
 import re
 from typing import Callable
 from typing import List
@@ -24,6 +25,12 @@ RE_INT = re.compile(r"-?[0-9]+(?:[eE]\+?[0-9]+)?")
 RE_FLOAT = re.compile(r"(:?-?[0-9]+\.[0-9]+(?:[eE][+-]?[0-9]+)?)|(-?[0-9]+[eE]-[0-9]+)")
 RE_FUNCTION_NAME = re.compile(r"[a-z][a-z_0-9]*")
 ESCAPES = frozenset(["b", "f", "n", "r", "t", "u", "/", "\\"])
+
+# Verification hook. Off unless the environment variable JSONPATH_RFC9535_VERIF is "1"
+# AND a harness has installed a sink: `_verif_sink(lexer, state_fn, next_state_fn)` is
+# then called after every step of `Lexer.run`.
+_VERIF = os.environ.get("JSONPATH_RFC9535_VERIF") == "1"
+_verif_sink: Optional[Callable[..., None]] = None
 
 
 class Lexer:
@@ -69,7 +76,10 @@ class Lexer:
         """Start scanning this lexer's JSONPath expression."""
         state: Optional[StateFn] = lex_root
         while state is not None:
+            fn = state
             state = state(self)
+            if _VERIF and _verif_sink is not None:
+                _verif_sink(self, fn, state)
 
     def emit(self, t: TokenType) -> None:
         """Append a token of type _t_ to the output tokens list."""
